@@ -19,7 +19,9 @@ def program(conv, f, args, sentinels, calls=1):
     data, setup = [], []
     for i, a in enumerate(args):
         if isinstance(a, str):
-            data += ["DLABEL(arg%d)" % i, "LP_STRING(%s)" % lit(a)]
+            # a cell that is not zero right behind every string: a function that reads one cell too far sees it
+            # (seed C19i: tstrcmp compared the cell behind an empty string)
+            data += ["DLABEL(arg%d)" % i, "LP_STRING(%s)" % lit(a), "INTEGER(%d)" % (1000, 7, 30000)[i % 3]]
     data += ["DLABEL(results)", "DSKIP(%d)" % (calls + 1), "DLABEL(regsave)", "DSKIP(16)"]
     lines = list(data)
     lines.append("#include <Tiger-stdlib-%s-data.hera>" % conv)
